@@ -132,25 +132,22 @@ Theorem C02_assign_fuel_irrelevant :
   depth o < f1 -> depth o < f2 -> assign f1 F o n = assign f2 F o n.
 Proof. exact assign_fuel_irrelevant. Qed.
 
-(* dict displays (Model/DictAssign.v): with fix the entries of the repaired display are exactly the entries of the observed dict, no key twice;
-   without fix the value never changes *)
+(* dict displays whose values are nested lists / tuples (Model/DictAssign.v): with fix the (key, value) pairs of the repaired display are exactly
+   the pairs of the observed dict, no key twice; without fix the value never changes *)
 Theorem C02_dict_fix_value :
-  forall (F : flags) (olds : list entry) (news : list (Z * Z)) (k v : Z),
-  f_fix F = true ->
-  NoDup (map e_key olds) ->
-  NoDup (map fst news) -> In (k, v) (map pair_of (dict_result F olds news)) <-> In (k, v) news.
+  forall (F : flags) (olds : list entry) (news : list (Z * val)) (k : Z) (v : val),
+  f_fix F = true -> managed_entries olds -> NoDup (map e_key olds) -> NoDup (map fst news) ->
+  In (k, v) (map pair_of (dict_result F olds news)) <-> In (k, v) news.
 Proof. exact dict_fix_value. Qed.
 
 Theorem C02_dict_fix_nodup :
-  forall (F : flags) (olds : list entry) (news : list (Z * Z)),
-  f_fix F = true ->
-  NoDup (map e_key olds) -> NoDup (map fst news) -> NoDup (map ditem_key (dict_result F olds news)).
+  forall (F : flags) (olds : list entry) (news : list (Z * val)),
+  f_fix F = true -> NoDup (map e_key olds) -> NoDup (map fst news) -> NoDup (map fst (dict_result F olds news)).
 Proof. exact dict_fix_nodup. Qed.
 
 Theorem C02_dict_nofix_value :
-  forall (F : flags) (olds : list entry) (news : list (Z * Z)),
-  f_fix F = false ->
-  map pair_of (dict_result F olds news) = map (fun e : entry => (e_key e, l_val (e_leaf e))) olds.
+  forall (F : flags) (olds : list entry) (news : list (Z * val)),
+  f_fix F = false -> map pair_of (dict_result F olds news) = map old_pair olds.
 Proof. exact dict_nofix_value. Qed.
 
 (* constructor calls of dataclass-like values (Model/CallAssign.v; arguments are nested lists / tuples): after fix no positional argument is left and
